@@ -3,7 +3,7 @@
 export PATH=/opt/veriftools/go1.26.8/bin:$PATH GOFLAGS=-mod=mod GOPROXY=off GOTOOLCHAIN=local GOSUMDB=off
 (cd engine && go build -o ../bin/gosym .)
 tier=$1; shift
-props=${@:-C01 C02 C03 C04 C05 C06 C07 C08 C09 C10 C11 C12 C13 C14 C15 C16 C17 C18}
+props=${@:-C01 C02 C03 C04 C05 C06 C07 C08 C09 C10 C11 C12 C13 C14 C15 C16 C17 C18 C19}
 for c in $props; do
   s=$(date +%s)
   ./check $c $tier 2>&1 | grep -E "VIOL|INCONC|KNOWN|$tier:|paths=" | cut -c1-400
